@@ -112,11 +112,37 @@ def r1(run, ctx):
                                   % (f.qualname, txt))
     run.count('R1', n, 3, 'OS signal primitive call sites')
     sc = ctx.fn(P + 'send_signal_child')
-    t = norm_text(sc.node)
-    run.check('R1', 'get_children(self._worker' in t and 'children[pid].send_signal(signum)' in t
-              and 'except KeyError' in t and 'NoSuchProcess' in t,
-              'send_signal_child signals only a current child and refuses any other pid', sc,
-              sc.node, 'send_signal_child can signal a pid that is not a child of the worker')
+    from sa.dataflow import reaching_defs
+    from sa.idioms import eq_test
+    rdc = reaching_defs(ctx, sc)
+    cfgc = ctx.cfg(sc)
+    nsend = 0
+    for node in ctx.live_nodes(sc):
+        for c in node.calls():
+            if not (isinstance(c.func, ast.Attribute) and c.func.attr in ('send_signal', 'kill',
+                                                                          'terminate')):
+                continue
+            nsend += 1
+            recv = c.func.value
+            ok = False
+            if isinstance(recv, ast.Subscript) and norm_text(recv.slice) == 'pid':
+                # table[pid] of a table built over the worker's current descendants
+                alts = rdc.expand(node, recv.value)
+                ok = bool(alts) and all('get_children(self._worker' in a.text() and
+                                        '.pid' in a.text() for a in alts)
+            elif isinstance(recv, ast.Name):
+                # the loop variable of a loop over the descendants, under `var.pid == pid`
+                hdr = [h for h in cfgc.nodes if h.kind == 'iter' and
+                       node.id in cfgc.branch_nodes(h, 'true') and
+                       isinstance(h.ast.target, ast.Name) and h.ast.target.id == recv.id and
+                       'get_children(self._worker' in norm_text(h.ast.iter)]
+                ok = bool(hdr) and guarded(
+                    cfgc, node, lambda e, v=recv.id: eq_test(e, v + '.pid', 'pid'), True)
+            run.check('R1', ok, 'send_signal_child signals only a current descendant of the '
+                      'worker with the requested pid', sc, node.ast,
+                      'send_signal_child can signal a pid that is not a child of the worker',
+                      construct='CHILD-RECEIVER')
+    run.count('R1', nsend, 1, 'signal sends in Process.send_signal_child')
 
 
 def r2(run, ctx):
@@ -134,14 +160,17 @@ def r2(run, ctx):
         return None
     if run.need('R2', sends, 'process.send_signal in Watcher.send_signal', f):
         for s in sends:
-            run.check('R2', guarded(cfg, s, member, True), 'a signal is sent only to a pid of this '
-                      "watcher's table", f, s.ast, 'Watcher.send_signal signals without checking '
-                      'that the pid is one of its workers')
             for c in s.calls():
                 if astq.call_last(c) == 'send_signal' and isinstance(c.func, ast.Attribute):
+                    # the receiver IS the table's entry for that pid (a lookup that fails or
+                    # gives None for a foreign pid cannot signal anybody)
                     recv = {a.text() for a in rd.expand(s, c.func.value)}
-                    run.check('R2', recv == {'self.processes[pid]'},
-                              'the receiver is the table entry for that pid', f, s.ast)
+                    run.check('R2', bool(recv) and recv <= {'self.processes[pid]',
+                                                            'self.processes.get(pid)'},
+                              'the receiver is the table entry for that pid', f, s.ast,
+                              'Watcher.send_signal signals %s, which is not the entry of its own '
+                              'process table for the requested pid' % sorted(recv),
+                              construct='TABLE-RECEIVER')
     for key, meth in ((W + 'send_signal_child', P + 'send_signal_child'),
                       (W + 'send_signal_children', P + 'send_signal_children')):
         g = ctx.fn(key)
